@@ -3,7 +3,7 @@
    The third-party libraries are universally quantified and constrained by the contracts of
    C18_Spec.v (detail_contract, b64_contract, bin_contract, json_contract); the last theorem
    shows the contracts are satisfied by the instances the extracted model runs with. *)
-From V Require Import C18_Spec C18_Proofs C18_Instances C18_Hist.
+From V Require Import C18_Spec C18_Proofs C18_Instances C18_Hist C18_Wiring.
 Open Scope N_scope.
 
 (* ---------------------------------------------------------------- errors *)
@@ -184,6 +184,22 @@ Theorem codec_rejects_unknown : forall wire marshal_bin unmarshal_bin marshal_js
                unmarshal_json false w = Some m /\ ~ has_unknown m).
 Proof. exact codec_rejects_unknown_proof. Qed.
 Print Assumptions codec_rejects_unknown.
+
+(* which peer decodes with which codec is set-up code of the peers, outside this property (C18_Wiring.v): the
+   table of registrations is regenerated from the peers' sources and recorded, never pinned.  What the codec
+   theorems give for a peer, for ANY table: a peer that installs a strict codec on every path through its
+   set-up code rejects unknown fields in that format *)
+Theorem strict_where_installed : forall wire marshal_bin unmarshal_bin marshal_json unmarshal_json json_unknown,
+  @bin_contract wire marshal_bin unmarshal_bin ->
+  json_contract marshal_json unmarshal_json json_unknown ->
+  forall t peer,
+  (always_installs t peer 1 = true ->
+     forall w, json_unknown w -> peer_unmarshal_json wire unmarshal_json t peer w = CErrMalformed) /\
+  (always_installs t peer 2 = true ->
+     forall w m, unmarshal_bin w = Some m -> has_unknown m ->
+                 peer_unmarshal_proto wire unmarshal_bin t peer w = CErrUnknown).
+Proof. exact strict_where_installed_proof. Qed.
+Print Assumptions strict_where_installed.
 
 (* --------------------------------------------- histories: structures used further *)
 (* The detail bytes are handed on as they are - for ANY bytes, a non-canonical encoding of a
